@@ -42,10 +42,16 @@ class Decider:
 
     def _q(self, terms):
         self._ensure_care()
-        lits = list(terms)
+        lits = list(terms) + list(getattr(self, 'assumed', []))
         if self.care_text:
             lits.append(self.care_text)
         return self.smt.check_text(lits)
+
+    def assume(self, g):
+        """restrict every later query to inputs satisfying the (raw) guard g, e.g. 'outside the known-finding classes'"""
+        if not hasattr(self, 'assumed'):
+            self.assumed = []
+        self.assumed.append(self.term(g))
 
     def term(self, g):
         self.smt.define(g)
@@ -74,7 +80,7 @@ class Decider:
         """re-run the query with the assertions kept so that a model can be read"""
         self._ensure_care()
         self.smt.send('(push 1)\n')
-        for t in list(terms) + ([self.care_text] if self.care_text else []):
+        for t in list(terms) + list(getattr(self, 'assumed', [])) + ([self.care_text] if self.care_text else []):
             self.smt.send('(assert %s)\n' % t)
         r = self.smt.check_text()
         m = self.smt.values() if r == 'sat' else None
